@@ -1,10 +1,10 @@
 #!/bin/bash
 # runs every registered check's quick (or thorough) command, prints exit codes, validates evidence
 tier=${1:-quick}
-cd /verif
+cd "$(dirname "$0")/.."
 for id in $(python3 -c "import json;print(' '.join(c['property_id'] for c in json.load(open('MANIFEST.json'))['checks']))"); do
   s=$(date +%s); out=$(./verif check $id --tier $tier 2>&1); rc=$?; e=$(date +%s)
   echo "$id exit=$rc $((e-s))s :: $(echo "$out" | grep -v '^KNOWN' | tail -1 | cut -c1-160)"
   echo "$out" | grep '^KNOWN' | cut -c1-120
 done
-python3-vt tools/validate.py | tail -1
+[ "$PWD" = /verif ] && python3-vt tools/validate.py | tail -1
